@@ -309,6 +309,16 @@ impl C16 {
                 if shape == 3 {
                     src += "  return 4\nend\nmake configured get configure()\n";
                 }
+                if shape == 5 {
+                    // a copy of the builder gets the opposite policies: builders are values, the
+                    // original must not notice
+                    let opposite = |p: u64| if p == 2 { "null" } else { "capture" };
+                    src += &format!(
+                        "make other get c\nother.stdout_{}()\nother.stderr_{}()\nother.timeout_ms(1)\n",
+                        opposite(c["out_pol"].as_u64().unwrap()),
+                        opposite(c["err_pol"].as_u64().unwrap())
+                    );
+                }
                 // where the result lives between run() and its use: top level, returned from a function,
                 // or assigned inside a loop body and read after the loop (frame resets in between)
                 match shape {
@@ -598,7 +608,7 @@ fn gen_scenario(r: &mut Rng, tier: Tier) -> Value {
         "pipe_cap": pipe_cap, "epipe_die": r.chance(50), "stdin_len": stdin_len, "script": script,
         "faults": faults, "jitter_seed": r.next() >> 1,
         "mode": if r.below(8) == 0 { "direct" } else { "script" },
-        "script_shape": r.pick(&[0u64, 0, 1, 2, 3, 4]),
+        "script_shape": r.pick(&[0u64, 0, 1, 2, 3, 4, 5]),
         "default_timeout": r.chance(15),
     })
 }
